@@ -4,6 +4,7 @@ statements (conditions, specificity keys and tags of the pool rules are given by
 by tally)."""
 import itertools
 import os
+import re
 import shutil
 import tempfile
 from datetime import date
@@ -75,6 +76,13 @@ POOL = [
       lambda t: 'AAA' in t['description'].upper() and 'STORE' in t['description'].upper(), 'CatUp', 'SubUp', key=(50, 2, 0, 8)),
     R('FieldK', ['match: contains("AAA") and Field.kind == "Wire"', 'category: CatFk', 'subcategory: SubFk'],
       lambda t: 'AAA' in t['description'].upper() and bool(t.get('field')) and str(t['field'].get('kind', '')).lower() == 'wire', 'CatFk', 'SubFk', key=(50, 1, 1, 3)),
+    # two regular expressions that differ only in the letter case of an escape: they are different conditions (\\W: not a word character, \\w: one)
+    R('RxNonWord', ['match: regex("^AAA\\\\W")', 'category: CatRxN', 'subcategory: SubRxN'], lambda t: re.search(r'^AAA\W', t['description'], re.I) is not None, 'CatRxN', 'SubRxN', key=(50, 1, 0, 6)),
+    R('RxWord', ['match: regex("^AAA\\\\w")', 'category: CatRxW', 'subcategory: SubRxW'], lambda t: re.search(r'^AAA\w', t['description'], re.I) is not None, 'CatRxW', 'SubRxW', key=(50, 1, 0, 6)),
+    # the pattern-length key counts the text of PATTERN arguments only: the literal "Wire" that FieldK compares a field with is no pattern text, so this
+    # rule (same priority, one pattern condition, one constraint kind, pattern text of 6) outranks FieldK (pattern text of 3)
+    R('AaaSt', ['match: contains("AAA ST") and amount > 5', 'category: CatSt', 'subcategory: SubSt'],
+      lambda t: 'AAA ST' in t['description'].upper() and t['amount'] > 5, 'CatSt', 'SubSt', key=(50, 1, 1, 6)),
     R('LongPat', ['match: fuzzy("AAA STORE", 0.9)', 'category: CatLp', 'subcategory: SubLp'], lambda t: 'AAA STORE' in t['description'].upper(), 'CatLp', 'SubLp', key=(50, 1, 0, 9)),
 ]
 BY_NAME = {r.name: r for r in POOL}
@@ -240,6 +248,8 @@ CSV_POOL = [
     ('AAA,Dyn,,,"{split(field.kind, ""W"", 1)}|{source}"', has('AAA'), ('Dyn', '', ''),
      lambda t: ([(t['field'] or {}).get('kind', '').split('W')[1]] if isinstance(t['field'], dict) and 'kind' in t['field'] and len(t['field']['kind'].split('W')) > 1 else []) + [t['source'] or '']),
     ('STORE[date:2025-03-06..2025-03-31],Merch D,CatD,SubD,', lambda t: 'STORE' in t['description'].upper() and date(2025, 3, 6) <= t['date'] <= date(2025, 3, 31), ('Merch D', 'CatD', 'SubD'), ()),
+    # a categorizing row whose Merchant cell is blank is the first matching categorizing rule all the same: the rows after it change nothing
+    ('AAA S,,CatNoName,SubNoName,', has('AAA S'), ('', 'CatNoName', 'SubNoName'), ()),
 ]
 
 
@@ -441,6 +451,24 @@ def check_list_valued_tags(run):
                        'parse_merchants(text, mode).match(txn, data_sources={orders: rows})')
 
 
+def check_csv_tags_query_sources(run):
+    """legacy CSV rule files alike (C02): a {expression} tag of a CSV row is evaluated for the transaction like the same tag in a .rules file - it may
+    query a supplemental source, and a list value gives one tag per element"""
+    O = run.O
+    path = os.path.join(run.tmp, 'merchant_categories.csv')
+    open(path, 'w').write('Pattern,Merchant,Category,Subcategory,Tags\n'
+                          'AAA,Amazon,Shopping,Online,"{[r.kind for r in orders if r.amount == amount]}|base|{next((r.kind for r in orders if r.amount == 99), \'\')}"\n')
+    rows = {'orders': [{'amount': 10.0, 'kind': ' Book '}, {'amount': 10.0, 'kind': 'Pen'}, {'amount': 99.0, 'kind': 'Other'}]}
+    O.case(('csv_tags_query_sources',))
+    clear_engine_cache()
+    tuples = get_all_rules(path)
+    m, c, s_, info = normalize_merchant('AAA STORE', tuples, amount=10.0, txn_date=date(2025, 3, 5), field=None, data_source='Amex', data_sources=rows)
+    got = sorted((info or {}).get('tags', []))
+    if got != ['base', 'book', 'other', 'pen']:
+        O.fail('C02.legacy_csv.tag_expression_cannot_query_sources', {'csv_tags_sources': True}, ['base', 'book', 'other', 'pen'], got,
+               'get_all_rules(csv) + normalize_merchant(..., data_sources={orders: rows})')
+
+
 def run(prop):
     O = Oracle()
 
@@ -463,6 +491,8 @@ def run(prop):
                     check_csv_regex_shapes(r)
                 elif 'list_tag_case' in w:
                     check_list_valued_tags(r)
+                elif 'csv_tags_sources' in w:
+                    check_csv_tags_query_sources(r)
                 else:
                     check_transforms(r)
                 O.finish()
@@ -472,7 +502,7 @@ def run(prop):
             if O.tier == 'quick':
                 names = [n for n in names if n not in ('Zero', 'T3')] if prop == 'C01' else names
                 if prop != 'C09':
-                    names = [n for n in names if n not in ('Payday', 'AaaMon', 'Spaced', 'Apos2', 'Upper', 'FieldK', 'LongPat')]       # rules that differ in ranking only
+                    names = [n for n in names if n not in ('Payday', 'AaaMon', 'Spaced', 'Apos2', 'Upper', 'FieldK', 'LongPat', 'AaaSt')]       # rules that differ in ranking only
             for n in range(1, maxlen + 1):
                 for combo in itertools.permutations(names, n):
                     for ti in range(len(TXNS)):
@@ -487,6 +517,7 @@ def run(prop):
                             check_csv(r, list(idxs), ti)
             if prop == 'C02':
                 check_list_valued_tags(r)
+                check_csv_tags_query_sources(r)
             if prop in ('C01', 'C02'):
                 check_csv_regex_shapes(r)
                 check_csv_expression_patterns(r)
